@@ -125,6 +125,14 @@ class Session:
         if k == "create":
             prov = {"spec": s["spec"], "chain": []}
             obj = call(hist.materialise, prov, what="construction")
+            if not oracle.is_leaf(obj):
+                # validation is a query too: its verdict must be the one a pristine process gives for this definition,
+                # whatever was validated here before
+                got_e = norm(hist.run_query(obj, {"q": "errors"}))
+                want_e = hist.ref().ask(prov, {"q": "errors"})
+                if got_e != want_e:
+                    raise Violation(f"errors() of a newly built object differs from the verdict of a pristine process for the same definition: "
+                                    f"{got_e} vs {want_e}")
             if oracle.is_leaf(obj) or call(obj.errors, what="errors()"):
                 self._count("discarded_invalid")
                 self.history[-1] = {"s": "skip", "was": "create"}
@@ -566,9 +574,28 @@ def derived_then_named(tier):
                         yield {"tolerant": True, "steps": steps}
 
 
+def wide_validation(tier):
+    """scripted histories with WIDE models (a node with 64-130 rules): an ill-defined one (a reference ring through the top id,
+    or an id with two definitions) is validated first, then well-defined wide models are built, validated and queried"""
+    L = lambda i: {"k": "leaf", "id": i, "b": [0, 1]}
+    for n in (64, 65, 66, 100, 130):
+        rules = [{"k": "Any", "id": "R%03d" % j, "c": [L("x%03d" % j), L("y%03d" % j)]} for j in range(n)]
+        good = {"k": "All", "id": "GOOD", "c": rules}
+        good2 = {"k": "Stingy", "id": "conf", "c": [{"k": "cXor", "id": "G%03d" % j, "c": [L("a%03d" % j), L("b%03d" % j), L("c%03d" % j)], "default": ["b%03d" % j]} for j in range(n)]}
+        ring = {"k": "All", "id": "BAD", "c": rules[:-1] + [{"k": "Any", "id": "LOOP", "c": [L("BAD"), L("z")]}]}
+        twodef = {"k": "All", "id": "BAD2", "c": rules[:-1] + [{"k": "Any", "id": "R000", "c": [L("x000"), L("zz")]}]}
+        for bad in (ring, twodef):
+            for second in (good, good2):
+                steps = [{"s": "create", "spec": bad}, {"s": "create", "spec": second},
+                         {"s": "query", "idx": 1, "query": {"q": "errors"}}, {"s": "query", "idx": 1, "query": {"q": "to_json"}},
+                         {"s": "create", "spec": good}, {"s": "query", "idx": 2, "query": {"q": "errors"}}]
+                yield {"tolerant": False, "strict_names": True, "steps": steps}
+
+
 def parts(tier):
     return [
         Part("strict", machine=make_machine(False), check=replay, quick=(6, 130), thorough=(12, 800), time_quick=50, time_thorough=900),
         Part("tolerant", machine=make_machine(True), check=replay, quick=(2, 80), thorough=(4, 500), time_quick=50, time_thorough=900),
+        Part("wide_validation", enumerate_cases=wide_validation, check=replay, time_quick=150.0),
         Part("derived_then_named", enumerate_cases=derived_then_named, check=replay, time_quick=150.0),
     ]
